@@ -131,6 +131,9 @@ TABLE.update({
     "c01_projection_loses_declared_flag.diff": ("contracts.c01b", "_lower_projection_from_signal", None),
     "c13_projection_target_not_registered.diff": ("contracts.c01b", "_lower_projection_from_signal", None),
     "c01_projection_int_as_signal.diff": ("contracts.c01b", "lower_projection_expr", None),
+    "c02_literal_mixed_drops_constants.diff": ("contracts.c02", "lower_bundle_literal", "elements: const, computed"),
+    "c02_literal_nested_members_lost.diff": ("contracts.c02", "lower_bundle_literal", "elements: nested, computed"),
+    "c02_literal_constant_value_zero.diff": ("contracts.c02", "lower_bundle_literal", "elements: const, const"),
     "c08_preserved_shares_network_zero.diff": ("contracts.c12", "_restore_preserved_connection", None),
     "c08_preserved_routing_failure_ignored.diff": ("contracts.c12", "_restore_preserved_connection", None),
     "c08_preserved_span_doubled.diff": ("contracts.c12", "_restore_preserved_connection", None),
